@@ -46,16 +46,21 @@ Init == s = {}
 Ops ==      {[k |-> "insert", v |-> v] : v \in {x \in Vrps : WellFormed(x)}}
        \cup {[k |-> "remove", v |-> v] : v \in {x \in Vrps : WellFormed(x)}}
        \cup [k : {"dropsource"}, c : Caches]
+       \* the cache starts over: everything it had announced is replaced by a new snapshot (empty, or one VRP)
+       \cup UNION {{[k |-> "reset", c |-> cc, snap |-> sn] :
+                      sn \in {{}} \cup {{x} : x \in {y \in Vrps : WellFormed(y) /\ y.c = cc}}} : cc \in Caches}
 
 Enabled(st, op) ==
   CASE op.k = "insert" -> Cardinality(st \cup {op.v}) <= MaxVrps
     [] op.k = "remove" -> op.v \in st        \* removing an absent VRP is a no-op; explored via the harness
+    [] op.k = "reset"  -> Cardinality({v \in st : v.c # op.c} \cup op.snap) <= MaxVrps
     [] OTHER -> TRUE
 
 Step(st, op) ==
   CASE op.k = "insert"     -> st \cup {op.v}
     [] op.k = "remove"     -> st \ {op.v}
     [] op.k = "dropsource" -> {v \in st : v.c # op.c}
+    [] op.k = "reset"      -> {v \in st : v.c # op.c} \cup op.snap
 
 Next == \E op \in Ops : Enabled(s, op) /\ s' = Step(s, op)
 Spec == Init /\ [][Next]_s
@@ -81,6 +86,11 @@ As0NeverValid ==
 \* per-cache operations touch only that cache's VRPs
 DropSourceOK ==
   \A c \in Caches : LET t == Step(s, [k |-> "dropsource", c |-> c]) IN
+     /\ \A v \in t : v.c # c
+     /\ \A v \in s : v.c # c => v \in t
+\* a reset leaves exactly the snapshot for that cache, and every other cache's VRPs
+ResetOK ==
+  \A c \in Caches : LET t == Step(s, [k |-> "reset", c |-> c, snap |-> {}]) IN
      /\ \A v \in t : v.c # c
      /\ \A v \in s : v.c # c => v \in t
 =============================================================================
